@@ -52,7 +52,7 @@ ASSUMPTIONS = [
     "num_sanity_val_steps default)",
 ]
 BUDGET = {"quick": {"examples": 100, "workers": 4, "shrink": False},
-          "thorough": {"examples": 700, "workers": 14}}
+          "thorough": {"examples": 2000, "workers": 14}}
 
 
 def strategy(tier):
